@@ -245,13 +245,23 @@ Inductive iop :=
 | IDup (id : N)                                    (* App::duplicate_code                         wasm.rs:314-329 *)
 | ISetBlock (b : blockinfo)                        (* App::set_block                              app.rs:408-414 *)
 | IProbe (ids : list N)                            (* App::block_info + wrap().query_wasm_code_info(id) for each id *)
-| ITop (t : topop).                                (* execute / execute_multi / sudo / wasm_sudo / Executor helpers *)
+| ITop (t : topop)                                 (* execute / execute_multi / sudo / wasm_sudo / Executor helpers *)
+| IOpaque (tag : N) (o : outcome (list resp)) (b : blockinfo) (s : chain).
+  (* an operation the executor model does NOT cover (staking set-up, StakingMsg Delegate / Undelegate / Redelegate,
+     DistributionMsg::WithdrawDelegatorReward, StakingSudo::Slash, App::update_block with its queue processing).
+     The operation carries what run (i) of the implementation returned (responses or error-ness), the block and
+     the decoded MODELLED windows it left: the model takes them as given (it adopts block and state and continues
+     from there), so nothing is predicted about such a step; the un-modelled windows (staking, distribution) are
+     never part of the model's state.  What IS decided about opaque steps is relational: Chk19.p_c19 compares
+     their full observation (responses, events, data, error text, block, decoded windows, SHA-256 of the complete
+     raw store incl. the staking windows) across all runs. *)
 
 Inductive iout :=
 | RId (r : outcome N)                              (* the code id returned *)
 | RUnit
 | RProbe (b : blockinfo) (l : list (option (N * text * bytes)))     (* (code id, creator, checksum) *)
-| RTop (tr : trace) (o : outcome (list resp)).
+| RTop (tr : trace) (o : outcome (list resp))
+| ROpaque (o : outcome (list resp)) (b : blockinfo).
 
 Record inst := { i_codes : list (N * code); i_blk : blockinfo; i_chain : chain }.
 
@@ -321,6 +331,7 @@ Definition istep (ce : case_env) (ck : list (N * bytes)) (o : iop) (i : inst) : 
   | ITop t =>
       let '(tr, o, s') := run_top (mk_env (with_codes ce (i_codes i)) (i_blk i)) t (i_chain i) in
       (RTop tr o, set_chain i s')
+  | IOpaque _ o b s => (ROpaque o b, {| i_codes := i_codes i; i_blk := b; i_chain := s |})
   end.
 
 Definition run_inst (ce : case_env) (ck : list (N * bytes)) : list iop -> inst -> list (iout * inst) :=
